@@ -43,6 +43,8 @@ pub struct Cfg {
     pub avoid_f1: bool,
     /// how many proposals per history may be turned into transactions
     pub max_creates: u32,
+    /// the user marks transactions as trusted in this history (`set_tx_trust`)
+    pub trust_marks: bool,
 }
 
 impl Cfg {
@@ -58,6 +60,7 @@ impl Cfg {
             max_rewinds: rng.gen_range(0..=2),
             avoid_f1: rng.gen_bool(0.85),
             max_creates: rng.gen_range(4..12),
+            trust_marks: rng.gen_bool(0.5),
         }
     }
 
@@ -87,7 +90,7 @@ impl Cfg {
 
     pub fn to_json(&self) -> Value {
         json!({"nu6_3": self.nu6_3, "retention": self.retention, "initial_len": self.initial_len, "steps": self.steps,
-               "spend_bias": self.spend_bias, "max_rewinds": self.max_rewinds, "avoid_f1": self.avoid_f1, "max_creates": self.max_creates})
+               "spend_bias": self.spend_bias, "max_rewinds": self.max_rewinds, "avoid_f1": self.avoid_f1, "max_creates": self.max_creates, "trust_marks": self.trust_marks})
     }
 }
 
@@ -431,6 +434,27 @@ impl World {
     }
 
     /// Announces a fresh coin (or re-announces an un-mined one) to the wallet.
+    /// Marks (or un-marks) a transaction the wallet knows as trusted: the funding transaction of a
+    /// coin it holds, or a transaction of a scanned block that paid it.
+    pub fn set_trust(&mut self) -> bool {
+        use zcash_client_backend::data_api::WalletWrite;
+        let mut cands: Vec<TxIdBytes> = self.m.coins.keys().map(|k| k.0).collect();
+        for uid in self.w.scanned.values() {
+            for tx in &self.sim.all_blocks[uid].txs {
+                if !tx.received.is_empty() {
+                    cands.push(tx.txid);
+                }
+            }
+        }
+        cands.sort();
+        cands.dedup();
+        let Some(txid) = cands.choose(&mut self.rng).copied() else { return false };
+        let on = self.rng.gen_bool(0.75);
+        let ok = self.w.db.set_tx_trust(zcash_protocol::TxId::from_bytes(txid), on).is_ok();
+        self.log(json!({"op": "set_tx_trust", "txid": hex::encode(txid), "trusted": on, "ok": ok}));
+        ok
+    }
+
     pub fn put_coin(&mut self) -> bool {
         let Some(tip) = self.w.chain_height() else { return false };
         let account = self.rng.gen_range(0..2);
